@@ -272,6 +272,112 @@ def derived_case(rec, wkind, depth, variant):
         sys.modules.pop(derived_name, None)
 
 
+BOUND_VALUES = [('set', '{1, 2}'), ('list', '[1, [2]]'), ('dict', "{'k': [1]}"), ('bytearray', "bytearray(b'x')"), ('float', '1.0'),
+                ('tuple-of-list', '([1], 2)'), ('none', 'None')]
+
+
+def bound_value_case(rec, vname, vsrc, wkind, depth):
+    """The nest reads a bound name whose value is unhashable / compares equal to a value of another
+    type: (let q = <value> in nest([T, `q`, "!"])) | (let q = <equal value of another type> in nest([T, `q`])).
+    Both nests have the same text, start at the same position and differ only in what q holds."""
+    rng = rec.rng
+    kinds = []
+    for _ in range(depth):
+        k = wkind
+        if k == 'mix':
+            k = rng.choice(['seq', 'group', 'opt', 'leftempty'])
+        kinds.append(k)
+    T = ('re', '[ab]', False)
+
+    def nest(tail):
+        e = ('seq', [T, ('py', "('q', q)")])
+        for k in kinds:
+            e = wrap_once(k, e, rng)
+        return ('seq', [e] + tail)
+    other = {'float': '1', 'none': '0'}.get(vname, vsrc)
+    G = gast.simple_grammar({'start': ('alt', [('let', 'q', ('py', vsrc), nest([('str', '!')])),
+                                               ('let', 'q', ('py', other), nest([('opt', ('str', '?'))]))])})
+    case = dict(kind='nesting-bound-value', value=vname, wrapper=wkind, depth=depth, kinds=''.join(k[0] for k in kinds))
+    d = gast.render_grammar(G, gast.Style(parens='min'))
+    r = observe.compile_grammar(d)
+    rec.case()
+    if r[0] != 'ok':
+        rec.violation('nesting-bound-value:grammar-error:%s' % (r[1] if r[0] != 'timeout' else 'nonterm'), 'Grammar() of a deeply nested description',
+                      dict(case, desc=d[:300]), 'module', r)
+        return
+    g = r[1]
+    chain = refpeg.build_chain([G])
+    for text in ['a', 'a!', 'b?', 'b', '', 'ab', 'a?!']:
+        try:
+            exp, model = refpeg.expected(chain, text, None, 0, True, budget=400000)
+        except (refpeg.IllFormed, refpeg.ModelBudget, RecursionError):
+            rec.drop()
+            continue
+        o = observe.observe(g, text)
+        rec.case()
+        rec.count('bound_value_calls')
+        if depth >= 10:
+            rec.nontrivial(('bound-value', vname, wkind, depth, text))
+        if not observe.same_outcome(exp, o.outcome):
+            rec.violation('nesting-bound-value:%s->%s' % (observe.outcome_class(exp), observe.outcome_class(o.outcome)),
+                          'reference model on the wrapped expression reading a bound name', dict(case, text_repr=repr(text), desc=d[:200]),
+                          exp, o.outcome)
+
+
+def twin_case(rec, iname, e0, wkind, depth):
+    """One grammar holds the nest AND, as arguments of a template, every sub-nest of it: the text of
+    whichever sub-expression the generator moves into a helper function also occurs as an argument
+    expression (which becomes a helper of its own, with the other calling convention)."""
+    rng = rec.rng
+    kinds = []
+    for _ in range(depth):
+        k = wkind
+        if k == 'mix':
+            k = rng.choice(['seq', 'group', 'opt', 'zzalt', 'leftempty'])
+        kinds.append(k)
+    subs = [e0]
+    for k in kinds:
+        subs.append(wrap_once(k, subs[-1], rng))
+    order = rng.choice(['template-first', 'nest-first'])
+    rules = [('rule', 'Deep', None, subs[-1]),
+             ('rule', 'Via', None, ('alt', [('call', 'T', [x]) for x in reversed(subs)])),
+             ('rule', 'T', ['p'], ('seq', [('str', '~'), ('ref', 'p')])),
+             ('rule', 'R', None, ('alt', [('str', 'a'), ('str', 'b')]))]
+    if order == 'template-first':
+        rules = rules[1:3] + rules[:1] + rules[3:]
+    G = dict(name=None, extends=None, stmts=[('rule', 'start', None, ('alt', [('ref', 'Via'), ('ref', 'Deep')]))] + rules)
+    case = dict(kind='nesting-twin', inner=iname, wrapper=wkind, depth=depth, order=order, kinds=''.join(k[0] for k in kinds))
+    d = gast.render_grammar(G, gast.Style(parens='min'))
+    r = observe.compile_grammar(d)
+    rec.case()
+    if r[0] != 'ok':
+        rec.violation('nesting-twin:grammar-error:%s' % (r[1] if r[0] != 'timeout' else 'nonterm'), 'Grammar() of a deeply nested description',
+                      dict(case, desc=d[:300]), 'module', r)
+        return
+    g = r[1]
+    try:
+        chain = refpeg.build_chain([G])
+    except refpeg.IllFormed:
+        rec.drop()
+        return
+    for entry in (None, 'Deep', 'Via'):
+        for text in ['', 'a', 'b', 'a,b', 'a,', 'ab', '~a', '~b', '~a,b', '~', 'zz', '~zz', 'aa']:
+            try:
+                exp, model = refpeg.expected(chain, text, entry, 0, True, budget=400000)
+            except (refpeg.IllFormed, refpeg.ModelBudget, RecursionError):
+                rec.drop()
+                continue
+            o = observe.observe(g, text, entry)
+            rec.case()
+            rec.count('twin_calls')
+            if depth >= 10:
+                rec.nontrivial(('twin', iname, wkind, depth, entry, text))
+            if not observe.same_outcome(exp, o.outcome):
+                rec.violation('nesting-twin:%s->%s' % (observe.outcome_class(exp), observe.outcome_class(o.outcome)),
+                              'reference model: the nest and a template instantiated with each of its sub-nests, in one grammar',
+                              dict(case, entry=entry, text_repr=repr(text), desc=d[:200]), exp, o.outcome)
+
+
 # -- deep inputs ------------------------------------------------------------------
 
 DEEP = {
@@ -443,6 +549,22 @@ def run_shard(rec):
             idx += 1
             if rec.mine(idx) and not rec.out_of_time():
                 nesting_case(rec, 'bound-name', ('str', 'a'), {}, [], wkind, depth, False, bound=True)
+    # bound names holding unhashable values / values equal to a value of another type
+    for vname, vsrc in BOUND_VALUES:
+        for wkind in ('seq', 'opt', 'mix'):
+            for depth in ((3, 14, 16, 17, 18, 19, 20, 22, 25, 40) if quick else list(range(1, 45))):
+                idx += 1
+                if rec.mine(idx) and not rec.out_of_time():
+                    bound_value_case(rec, vname, vsrc, wkind, depth)
+    # the nest and all of its sub-nests as template arguments, in one grammar
+    TWIN_INNERS = [('ref', ('ref', 'R')), ('choice', ('alt', [('str', 'a'), ('str', 'b')])),
+                   ('sep', ('sep', ('ref', 'R'), ('str', ','), {'allow_trailer': True, '_op': '/?'}))]
+    for iname, e0 in TWIN_INNERS:
+        for wkind in ('seq', 'opt', 'zzalt', 'mix'):
+            for depth in (list(range(12, 25)) if quick else list(range(2, 40))):
+                idx += 1
+                if rec.mine(idx) and not rec.out_of_time():
+                    twin_case(rec, iname, e0, wkind, depth)
     # the nest inherited by a derived grammar
     for variant in ('override-ref', 'override-template', 'adds-ignore'):
         for wkind in ('seq', 'zzalt', 'opt', 'mix'):
@@ -459,6 +581,12 @@ def run_shard(rec):
 
 def replay(rec, rep):
     case = rep['case']
+    if case.get('kind') == 'nesting-bound-value':
+        return bound_value_case(rec, case['value'], dict(BOUND_VALUES)[case['value']], case['wrapper'], case['depth'])
+    if case.get('kind') == 'nesting-twin':
+        inner = {'ref': ('ref', 'R'), 'choice': ('alt', [('str', 'a'), ('str', 'b')]),
+                 'sep': ('sep', ('ref', 'R'), ('str', ','), {'allow_trailer': True, '_op': '/?'})}[case['inner']]
+        return twin_case(rec, case['inner'], inner, case['wrapper'], case['depth'])
     if case.get('kind') == 'nesting-derived':
         return derived_case(rec, case['wrapper'], case['depth'], case['variant'])
     if case.get('kind') == 'deep':
